@@ -62,6 +62,8 @@ impl SignatureConverter<'_> {
 
         match receiver_generation {
             ReceiverGeneration::Insert => {
+                // The new receiver must not capture the elided lifetimes of the output:
+                super::name_elided_input_and_output_lifetimes(sig);
                 sig.inputs.insert(
                     0,
                     self.gen_first_receiver(
